@@ -531,3 +531,303 @@ theorem mem_aremoves {evs : List AEv} {q : List Str} (h : q ∈ aremoves evs) : 
   | rm p => simp at he; exact ⟨_, hev, by simp [AEv.path, he]⟩
 
 end D2V.Path
+
+namespace D2V.Path
+
+/-! ### a file that was written is not removed afterwards -/
+
+/-- no `RemoveAll Q` comes after a write of a file at or below `Q` -/
+def NoLateRemove : List AEv → Prop
+  | [] => True
+  | .wr W :: r => (∀ Q ∈ aremoves r, ¬ Q <+: W) ∧ NoLateRemove r
+  | .rm _ :: r => NoLateRemove r
+
+theorem aremoves_append (a b : List AEv) : aremoves (a ++ b) = aremoves a ++ aremoves b := by
+  simp [aremoves, List.filterMap_append]
+
+theorem noLateRemove_append : ∀ (a b : List AEv),
+    NoLateRemove (a ++ b) ↔ NoLateRemove a ∧ NoLateRemove b ∧ ∀ W ∈ awrites a, ∀ Q ∈ aremoves b, ¬ Q <+: W
+  | [], b => by simp [NoLateRemove, awrites]
+  | .rm q :: r, b => by
+    simp only [List.cons_append, NoLateRemove, noLateRemove_append r b]
+    have : awrites (AEv.rm q :: r) = awrites r := by simp [awrites]
+    rw [this]
+  | .wr w :: r, b => by
+    simp only [List.cons_append, NoLateRemove, noLateRemove_append r b, aremoves_append, List.mem_append]
+    have : awrites (AEv.wr w :: r) = w :: awrites r := by simp [awrites]
+    rw [this]
+    constructor
+    · rintro ⟨h1, h2, h3, h4⟩
+      refine ⟨⟨fun Q hQ => h1 Q (Or.inl hQ), h2⟩, h3, ?_⟩
+      intro W hW Q hQ
+      rcases List.mem_cons.mp hW with e | e
+      · subst e; exact h1 Q (Or.inr hQ)
+      · exact h4 W e Q hQ
+    · rintro ⟨⟨h1, h2⟩, h3, h4⟩
+      refine ⟨?_, h2, h3, fun W hW Q hQ => h4 W (by simp [hW]) Q hQ⟩
+      intro Q hQ
+      rcases hQ with hQ | hQ
+      · exact h1 Q hQ
+      · exact h4 w (by simp) Q hQ
+
+theorem mem_aremoves_renderAL {bs : List Board} {S : List Str} {q : List Str} (h : q ∈ aremoves (renderAL S bs)) :
+    ∃ ev ∈ renderAL S bs, ev.path = q := mem_aremoves h
+
+/-- writes of one group of sub-boards vs removes of another group in a different sub-directory -/
+theorem groups_no_late (P : List Str) (k1 k2 : Str) (hk : k1 ≠ k2) (c1 c2 : Bool) (b1 b2 : List Board)
+    (hc1 : b2 ≠ [] → c1 = true) (hc2 : b1 ≠ [] → c2 = true) :
+    ∀ W ∈ awrites (renderAL (if c1 = true then P ++ [k1] else P) b1),
+    ∀ Q ∈ aremoves (renderAL (if c2 = true then P ++ [k2] else P) b2), ¬ Q <+: W := by
+  intro W hW Q hQ hpre
+  have hb1 : b1 ≠ [] := by intro e; subst e; simp [awrites_renderAL_nil] at hW
+  have hb2 : b2 ≠ [] := by intro e; subst e; simp [renderAL, aremoves] at hQ
+  rw [hc1 hb2] at hW
+  rw [hc2 hb1] at hQ
+  obtain ⟨e1, he1, hp1⟩ := mem_awrites hW
+  obtain ⟨e2, he2, hp2⟩ := mem_aremoves hQ
+  have i1 := insideL b1 _ e1 he1
+  have i2 := insideL b2 _ e2 he2
+  rw [hp1] at i1; rw [hp2] at i2
+  simp only [if_true] at i1 i2
+  exact hk (snoc_prefix_inj i1 (List.IsPrefix.trans i2 hpre))
+
+mutual
+theorem noLateB : ∀ (b : Board) (S : List Str), GoodB b → NoLateRemove (renderA S b)
+  | .mk name fo ls ss st, S, hg => by
+    obtain ⟨nl, ns, nt, _, _, _, gl, gs, gt⟩ := hg
+    simp only [renderA]
+    generalize (if name ≠ [] then S ++ [name] else S) = P
+    have nel : ∀ {l : List Board}, l ≠ [] → l.isEmpty = false := by intro l h; cases l <;> simp_all
+    have c1s : ss ≠ [] → (!ss.isEmpty || !st.isEmpty) = true := by intro h; simp [nel h]
+    have c1t : st ≠ [] → (!ss.isEmpty || !st.isEmpty) = true := by intro h; simp [nel h]
+    have c2l : ls ≠ [] → (!ls.isEmpty || !st.isEmpty) = true := by intro h; simp [nel h]
+    have c2t : st ≠ [] → (!ls.isEmpty || !st.isEmpty) = true := by intro h; simp [nel h]
+    have c3l : ls ≠ [] → (!ls.isEmpty || !ss.isEmpty) = true := by intro h; simp [nel h]
+    have c3s : ss ≠ [] → (!ls.isEmpty || !ss.isEmpty) = true := by intro h; simp [nel h]
+    have dLS := groups_no_late P sLayers sScenarios (by decide) _ _ ls ss c1s c2l
+    have dLT := groups_no_late P sLayers sSteps (by decide) _ _ ls st c1t c3l
+    have dST := groups_no_late P sScenarios sSteps (by decide) _ _ ss st c2t c3s
+    have hl := fun S => noLateL ls S gl nl
+    have hs := fun S => noLateL ss S gs ns
+    have ht := fun S => noLateL st S gt nt
+    generalize (!ss.isEmpty || !st.isEmpty) = c1 at *
+    generalize (!ls.isEmpty || !st.isEmpty) = c2 at *
+    generalize (!ls.isEmpty || !ss.isEmpty) = c3 at *
+    generalize (!(ls.isEmpty && ss.isEmpty && st.isEmpty)) = has
+    have hown : ∀ (x : List AEv), NoLateRemove x → NoLateRemove (x ++ (if fo = true then [] else [AEv.wr (if has = true then P ++ [sIndex] else P)])) := by
+      intro x hx
+      rw [noLateRemove_append]
+      refine ⟨hx, ?_, ?_⟩
+      · cases fo <;> simp [NoLateRemove, aremoves]
+      · intro W _ Q hQ
+        cases fo <;> simp [aremoves] at hQ
+    have hpre : ∀ (x : List AEv), NoLateRemove x → NoLateRemove ((if has = true then [AEv.rm P] else []) ++ x) := by
+      intro x hx
+      cases has <;> simpa [NoLateRemove] using hx
+    apply hown
+    simp only [List.append_assoc]
+    apply hpre
+    rw [noLateRemove_append]
+    refine ⟨hl _, ?_, ?_⟩
+    · rw [noLateRemove_append]
+      exact ⟨hs _, ht _, dST⟩
+    · intro W hW Q hQ
+      rw [aremoves_append] at hQ
+      rcases List.mem_append.mp hQ with h | h
+      · exact dLS W hW Q h
+      · exact dLT W hW Q h
+theorem noLateL : ∀ (bs : List Board) (S : List Str), GoodL bs → namesOK bs → NoLateRemove (renderAL S bs)
+  | [], _, _, _ => by simp [renderAL, NoLateRemove]
+  | b :: r, S, hg, hok => by
+    simp only [renderAL]
+    have hokr : namesOK r := ⟨(List.nodup_cons.mp hok.1).2, fun x hx => hok.2 x (by simp [hx])⟩
+    rw [noLateRemove_append]
+    refine ⟨noLateB b S hg.1, noLateL r S hg.2 hokr, ?_⟩
+    intro W hW Q hQ hpre
+    obtain ⟨e1, he1, hp1⟩ := mem_awrites hW
+    obtain ⟨e2, he2, hp2⟩ := mem_aremoves hQ
+    have hbn : b.name ≠ [] := hok.2 b (by simp)
+    have i1 := insideB b S e1 he1
+    simp only [boardPath, hbn, ne_eq, not_false_eq_true, if_true] at i1
+    obtain ⟨c, hc, i2⟩ := insideL_name r S e2 hokr.2 he2
+    rw [hp1] at i1; rw [hp2] at i2
+    have := snoc_prefix_inj i1 (List.IsPrefix.trans i2 hpre)
+    have hnot : b.name ∉ r.map Board.name := (List.nodup_cons.mp hok.1).1
+    exact hnot (by rw [this]; exact List.mem_map_of_mem hc)
+end
+
+end D2V.Path
+
+namespace D2V.Path
+
+/-- string level: no `RemoveAll d` after a write of `p` with `p` equal to or below `d` -/
+def NoLateRemoveS : List Ev → Prop
+  | [] => True
+  | .write p :: r => (∀ d ∈ removesOf r, underOrEq d p = false) ∧ NoLateRemoveS r
+  | .removeAll _ :: r => NoLateRemoveS r
+
+/-- `e` is not a suffix of the element -/
+def NE (e c : Str) : Prop := ¬ e <:+ c
+
+theorem inter_snoc_glue : ∀ (I : List Str) (l e : Str), inter (I ++ [l]) ++ e = inter (I ++ [l ++ e])
+  | [], l, e => by simp [inter]
+  | [a], l, e => by simp [inter, List.append_assoc]
+  | a :: a2 :: r, l, e => by
+    have := inter_snoc_glue (a2 :: r) l e
+    simp only [List.cons_append] at this ⊢
+    simp only [inter, List.append_assoc, List.cons_append]
+    rw [← this]
+    simp [List.append_assoc]
+
+theorem inter_inj' (q1 q2 : List Str) (h1 : ∀ c ∈ q1, NoSlash c) (h2 : ∀ c ∈ q2, NoSlash c) (n1 : q1 ≠ []) (n2 : q2 ≠ [])
+    (h : inter q1 = inter q2) : q1 = q2 := by
+  have s1 := splitSlash_inter q1 h1 n1
+  have s2 := splitSlash_inter q2 h2 n2
+  rw [h] at s1
+  rw [← s1, s2]
+
+theorem splitSlash_ne_nil (s : Str) : splitSlash s ≠ [] := by
+  obtain ⟨h, t, ht⟩ := consHead_splitSlash 'x' s
+  rw [ht]; simp
+
+/-- on element lists: if the directory `/Q` is (a prefix directory of) the file `/W`+ext then `Q` is a prefix of `W` -/
+theorem underOrEq_abs (Q W : List Str) (e : Str) (he : GoodExt e)
+    (hQ : ∀ c ∈ Q, NoSlash c) (hW : ∀ c ∈ W, NoSlash c) (hQne : Q ≠ []) (hWne : W ≠ [])
+    (hQe : ∀ c ∈ Q, NE e c)
+    (h : underOrEq ('/' :: inter Q) ('/' :: inter W ++ e) = true) : Q <+: W := by
+  obtain ⟨e', rfl, _, hes⟩ := he
+  -- W = I ++ [l]
+  obtain ⟨I, l, rfl⟩ : ∃ I l, W = I ++ [l] := ⟨W.dropLast, W.getLast hWne, (List.dropLast_append_getLast hWne).symm⟩
+  have hl : NoSlash l := hW l (by simp)
+  have hle : NoSlash (l ++ '.' :: e') := by
+    intro hm
+    rcases List.mem_append.mp hm with h1 | h1
+    · exact hl h1
+    · rcases List.mem_cons.mp h1 with h2 | h2
+      · exact absurd h2 (by decide)
+      · exact hes h2
+  have hW' : ∀ c ∈ I ++ [l ++ '.' :: e'], NoSlash c := by
+    intro c hc
+    rcases List.mem_append.mp hc with h1 | h1
+    · exact hW c (by simp [h1])
+    · simp at h1; subst h1; exact hle
+  have hglue : ('/' :: inter (I ++ [l]) ++ '.' :: e' : Str) = '/' :: inter (I ++ [l ++ '.' :: e']) := by
+    have := inter_snoc_glue I l ('.' :: e')
+    simp only [List.cons_append, this]
+  rw [hglue] at h
+  unfold underOrEq at h
+  rcases Bool.or_eq_true _ _ |>.mp h with h1 | h1
+  · -- equal strings: Q's last element would end in the extension
+    have heq : inter (I ++ [l ++ '.' :: e']) = inter Q := by
+      have := (beq_iff_eq.mp h1)
+      exact (List.cons.inj this).2
+    have := inter_inj' _ _ hW' hQ (by simp) hQne heq
+    have hmem : (l ++ '.' :: e') ∈ Q := by rw [← this]; simp
+    exact absurd (List.suffix_append l ('.' :: e')) (hQe _ hmem)
+  · -- proper prefix
+    have hp : ('/' :: inter Q ++ ['/']) <+: '/' :: inter (I ++ [l ++ '.' :: e']) := List.isPrefixOf_iff_prefix.mp h1
+    obtain ⟨rest, hrest⟩ := hp
+    have hstr : inter Q ++ '/' :: rest = inter (I ++ [l ++ '.' :: e']) := by
+      simp only [List.cons_append, List.append_assoc, List.singleton_append] at hrest
+      exact (List.cons.inj hrest).2
+    have hsp := congrArg splitSlash hstr
+    rw [splitSlash_inter_append Q rest hQ hQne, splitSlash_inter _ hW' (by simp)] at hsp
+    have hT := splitSlash_ne_nil rest
+    have hQW' : Q <+: I ++ [l ++ '.' :: e'] := ⟨_, hsp⟩
+    have hlen : Q.length ≤ I.length := by
+      have := congrArg List.length hsp
+      simp only [List.length_append, List.length_cons, List.length_nil] at this
+      have : 0 < (splitSlash rest).length := List.length_pos_iff.mpr hT
+      omega
+    have hI : I <+: I ++ [l ++ '.' :: e'] := List.prefix_append _ _
+    exact List.IsPrefix.trans (List.prefix_of_prefix_length_le hQW' hI hlen) (List.prefix_append _ _)
+
+mutual
+/-- no board name ends in the extension -/
+def NamesNE (e : Str) : Board → Prop
+  | .mk name _ ls ss st => NE e name ∧ NamesNEL e ls ∧ NamesNEL e ss ∧ NamesNEL e st
+def NamesNEL (e : Str) : List Board → Prop
+  | [] => True
+  | b :: r => NamesNE e b ∧ NamesNEL e r
+end
+
+theorem ne_of_no_dot (e c : Str) (he : GoodExt e) (hc : '.' ∉ c) : NE e c := by
+  obtain ⟨e', rfl, _, _⟩ := he
+  intro ⟨t, ht⟩
+  apply hc
+  rw [← ht]; simp
+
+mutual
+theorem neB (e : Str) (he : GoodExt e) : ∀ (b : Board) (S : List Str), (∀ c ∈ S, NE e c) → NamesNE e b →
+    ∀ ev ∈ renderA S b, ∀ c ∈ ev.path, NE e c
+  | .mk name fo ls ss st, S, hS, hne, ev, h => by
+    obtain ⟨hname, hl, hs, ht⟩ := hne
+    simp only [renderA] at h
+    have snoc : ∀ {P : List Str} {k : Str}, (∀ c ∈ P, NE e c) → NE e k → ∀ c ∈ P ++ [k], NE e c := by
+      intro P k hP hk c hc
+      rcases List.mem_append.mp hc with h | h
+      · exact hP c h
+      · simp at h; subst h; exact hk
+    have hP : ∀ c ∈ (if name ≠ [] then S ++ [name] else S), NE e c := by
+      by_cases hn : name = []
+      · simpa [hn] using hS
+      · simpa [hn] using snoc hS hname
+    generalize (if name ≠ [] then S ++ [name] else S) = P at h hP
+    have kw : ∀ k : Str, '.' ∉ k → ∀ (c : Bool), ∀ x ∈ (if c = true then P ++ [k] else P), NE e x := by
+      intro k hk c; cases c
+      · simpa using hP
+      · simpa using snoc hP (ne_of_no_dot e k he hk)
+    generalize (!ss.isEmpty || !st.isEmpty) = c1 at h
+    generalize (!ls.isEmpty || !st.isEmpty) = c2 at h
+    generalize (!ls.isEmpty || !ss.isEmpty) = c3 at h
+    generalize (!(ls.isEmpty && ss.isEmpty && st.isEmpty)) = has at h
+    simp only [List.mem_append] at h
+    rcases h with (((h | h) | h) | h) | h
+    · cases has
+      · simp at h
+      · simp at h; subst h; exact hP
+    · exact neL e he ls _ (kw sLayers (by decide) c1) hl ev h
+    · exact neL e he ss _ (kw sScenarios (by decide) c2) hs ev h
+    · exact neL e he st _ (kw sSteps (by decide) c3) ht ev h
+    · cases fo
+      · simp at h; subst h
+        cases has
+        · simpa [AEv.path] using hP
+        · simpa [AEv.path] using snoc hP (ne_of_no_dot e sIndex he (by decide))
+      · simp at h
+theorem neL (e : Str) (he : GoodExt e) : ∀ (bs : List Board) (S : List Str), (∀ c ∈ S, NE e c) → NamesNEL e bs →
+    ∀ ev ∈ renderAL S bs, ∀ c ∈ ev.path, NE e c
+  | [], _, _, _, _, h => by simp [renderAL] at h
+  | b :: r, S, hS, hne, ev, h => by
+    simp only [renderAL, List.mem_append] at h
+    rcases h with h | h
+    · exact neB e he b S hS hne.1 ev h
+    · exact neL e he r S hS hne.2 ev h
+end
+
+/-- transfer of `NoLateRemove` to the string-level effect list -/
+theorem noLateRemoveS_map (e : Str) (he : GoodExt e) : ∀ (aevs : List AEv),
+    (∀ ev ∈ aevs, (∀ c ∈ ev.path, NoSlash c) ∧ ev.path ≠ [] ∧ (∀ c ∈ ev.path, NE e c)) →
+    NoLateRemove aevs → NoLateRemoveS (aevs.map (AEv.toEv e))
+  | [], _, _ => by simp [NoLateRemoveS]
+  | .rm q :: r, hall, h => by
+    simp only [List.map_cons, AEv.toEv, NoLateRemoveS]
+    exact noLateRemoveS_map e he r (fun ev hev => hall ev (by simp [hev])) h
+  | .wr w :: r, hall, h => by
+    simp only [List.map_cons, AEv.toEv, NoLateRemoveS]
+    obtain ⟨h1, h2⟩ := h
+    refine ⟨?_, noLateRemoveS_map e he r (fun ev hev => hall ev (by simp [hev])) h2⟩
+    intro d hd
+    rw [removesOf_map] at hd
+    obtain ⟨q, hq, rfl⟩ := List.mem_map.mp hd
+    obtain ⟨ev, hev, hpath⟩ := mem_aremoves hq
+    have hw := hall (.wr w) (by simp)
+    have hqv := hall ev (by simp [hev])
+    rw [hpath] at hqv
+    simp only [AEv.path] at hw
+    cases hu : underOrEq ('/' :: inter q) ('/' :: inter w ++ e) with
+    | false => rfl
+    | true =>
+      exact absurd (underOrEq_abs q w e he hqv.1 hw.1 hqv.2.1 hw.2.1 hqv.2.2 hu) (h1 q hq)
+
+end D2V.Path
